@@ -220,10 +220,11 @@ PROPS["C19"] = {
     "engine": "kani", "module": "c19", "feature": "c19", "jobs": 6, "timeout_q": 600,
     "functions": ["Modulo2Equation::{from_parts,add,add_ptr,is_unsolvable,is_identity,eval_vars}",
                   "Modulo2System::{new,push,check,echelon_form,gaussian_elimination}"],
-    "bounds": "one harness per concrete shape (variables <= 4, equations <= 3 quick / <= 4 thorough, concrete variable lists incl. repeated rows, "
+    "bounds": "one harness per concrete shape (variables <= 4, equations <= 2 (both tiers), concrete variable lists incl. repeated rows, "
               "dependent sums, contradictions, unused variables, rows needing a swap); the constant of every equation is a symbolic u8 (eight "
               "independent GF(2) systems per query); the witness assignment is symbolic",
-    "outside": "lazy_gaussian_elimination (the solver the builder uses): two equations over two variables gave no answer in 20 min / 8 GB; "
+    "outside": "systems of three or more equations (every such shape exhausts 16 GB, a four-equation shape 44 GB: data-dependent control flow makes the "
+               "loop counters symbolic after state merging); lazy_gaussian_elimination (the solver the builder uses): two equations over two variables gave no answer in 20 min / 8 GB; "
                "shapes not listed; symbolic variable lists (every Vec becomes symbolic-sized)",
     "assumptions": ["std::backtrace::Backtrace::capture is stubbed by Backtrace::disabled (error values are irrelevant to the property; the "
                     "backtrace drop glue alone took 6.5 GB)", "results are mem::forget-ed (drop glue not analysed)"],
